@@ -225,6 +225,65 @@ pub fn run(ctx: &mut Ctx) {
         }
         eval_stream(ctx, &cw, "b.mutated_valid_stream");
     }
+    // length fields that disagree with what is left of the stream, one- and two-codeword forms, long streams
+    {
+        let mut item = 0usize;
+        for total in [3usize, 5, 12, 30, 62, 114, 204, 252, 253, 254, 280, 368, 456, 816, 1304, 1558] {
+            for prefix in [0usize, 1, 7] {
+                if !ctx.mine(item) {
+                    item += 1;
+                    continue;
+                }
+                item += 1;
+                if prefix + 3 > total {
+                    continue;
+                }
+                // positions: prefix ASCII codewords, then 231, then the length field, then payload up to `total`
+                for two in [false, true] {
+                    let hdr = 1 + if two { 2 } else { 1 };
+                    if prefix + hdr > total {
+                        continue;
+                    }
+                    let remaining = total - prefix - hdr;
+                    for delta in -3i64..=3 {
+                        let l = remaining as i64 + delta;
+                        if l < 0 {
+                            continue;
+                        }
+                        let l = l as usize;
+                        let mut cw = ascii_prefix(prefix);
+                        cw.push(231);
+                        let start = cw.len();
+                        if two {
+                            if l < 250 || l > 1555 + 250 {
+                                // also feed inconsistent two-byte forms for small lengths
+                                cw.push(249 + (l / 250).min(6) as u8);
+                                cw.push((l % 250) as u8);
+                            } else {
+                                cw.push((l / 250 + 249).min(255) as u8);
+                                cw.push((l % 250) as u8);
+                            }
+                        } else {
+                            cw.push(l.min(249) as u8);
+                        }
+                        while cw.len() < total {
+                            cw.push((cw.len() * 7 % 251) as u8);
+                        }
+                        for i in start..cw.len() {
+                            cw[i] = randomize_255(cw[i], i + 1);
+                        }
+                        eval_stream(ctx, &cw, "b.base256_length_vs_remaining");
+                        // the same stream inside a complete symbol with valid parity, through DataMatrix::decode
+                        if let Some(r) = CAT.iter().find(|r| r.data == total) {
+                            if delta.abs() <= 1 {
+                                eval_symbol_with_stream(ctx, r, &cw, "d.hostile_stream_valid_parity");
+                            }
+                        }
+                    }
+                }
+            }
+        }
+    }
     // random byte streams of various lengths
     for _ in 0..ctx.budget(100_000, 10_000_000) {
         let n = ctx.rng.range(1, 40);
